@@ -117,6 +117,10 @@ const R_ALL: &[(&str, Fm)] = &[
     // the same two scriptlet rules once more from a list with another permission mask
     ("example.com##+js(sl1, alpha)", Fm::StdPerm),
     ("example.com##+js(permlet)", Fm::StdPerm),
+    // permissioned scriptlet rules for other hosts (the side table of permissions gets several keys)
+    ("ads.net##+js(sl0)", Fm::StdPerm),
+    ("sub.example.com##+js(sl0)", Fm::StdPerm),
+    ("tracker.co.uk,hosts.ads.net##+js(sl1, alpha)", Fm::StdPerm),
     ("example.com#@#+js()", Fm::Std),
     ("sub.example.com#@#+js(sl1, alpha)", Fm::Std),
     ("example.*##.entity-ad", Fm::Std),
